@@ -133,7 +133,11 @@ class XmlContext:
         Returns:
             The bool result.
         """
-        if not self.class_type.is_model(clazz):
+        if not self.class_type.is_model(clazz) or clazz in (
+            self.class_type.any_element,
+            self.class_type.derived_element,
+        ):
+            # The generic models don't bind to any element name
             return False
 
         has_valid_module = (
